@@ -49,8 +49,20 @@ static std::vector<std::thread> gResponders[NG_MAX_ACTORS]; // one list per crea
 // event-loop thread, the second written and flushed by a thread of the handler's own - while the connection accepts
 // one write and then answers would-block until it is released
 static bool gSplitReply = false;
+// flushReply: PUT requests are answered on the event-loop thread by streaming the body and flushing it (the flush drains
+// the worker's mailbox on the handler's initiative); every other request is answered later by a thread of the handler's
+// own, through that mailbox. Threads also yield before every read of an eventfd.
+static bool gFlushReply = false;
 static void reply(Http::ResponseWriter& w, const std::string& body)
 {
+    if (gFlushReply && body.compare(0, 4, "put:") == 0)
+    {
+        auto s = w.stream(Http::Code::Ok);
+        s << body.c_str();
+        s << Http::flush;
+        s << Http::ends;
+        return;
+    }
     if (gSplitReply)
     {
         std::string wire = "HTTP/1.1 200 OK\r\nConnection: Keep-Alive\r\nContent-Length: " + std::to_string(body.size()) + "\r\n\r\n" + body;
@@ -69,7 +81,7 @@ static void reply(Http::ResponseWriter& w, const std::string& body)
         }
         return;
     }
-    if (!gAsyncReply)
+    if (!gAsyncReply && !gFlushReply)
     {
         w.send(Http::Code::Ok, body);
         return;
@@ -153,7 +165,12 @@ static Exec run_one(const std::vector<uint8_t>& prefix, int shutdownAt, vr::Ctx&
         for (int a = 0; a < 1 + W; ++a)
             ng_set_fine(a, 1);
     sim::S().accept_failures = gAcceptFaults;
-    if (gAsyncReply || gSplitReply)
+    if (gFlushReply)
+    {
+        sim::TsanIgnore ign;
+        sim::S().eventfd_read_is_a_point = true;
+    }
+    if (gAsyncReply || gSplitReply || gFlushReply)
     {
         sim::TsanIgnore ign;
         sim::S().park_threads_at_start = true; // threads created from now on (the handlers' own) wait to be scheduled
@@ -341,7 +358,7 @@ static Exec run_one(const std::vector<uint8_t>& prefix, int shutdownAt, vr::Ctx&
         steps += sim::settle();
     }
     // the handlers' own threads hold the transport: they are run to their end and joined before the endpoint goes
-    if (gAsyncReply || gSplitReply)
+    if (gAsyncReply || gSplitReply || gFlushReply)
     {
         for (int round = 0; round < 400; ++round)
         {
@@ -419,6 +436,7 @@ struct Case
     bool asyncReply  = false;
     bool splitReply  = false;
     bool slowAcceptor = false;
+    bool flushReply   = false;
 };
 static void run_one_noreport(const std::vector<uint8_t>& prefix, vr::Ctx& ctx, uint64_t& steps)
 {
@@ -440,7 +458,7 @@ static void build_scripts()
             std::string tag = std::string(tags[(j * 2 + k) % 6]) + std::to_string(j) + std::to_string(k);
             // both method tables that do not exist (DELETE, PATCH) are hit, from different connections
             // (asyncReply: only requests that reach a handler; otherwise the mix includes the two absent method tables)
-            switch (gSelfTestRace ? (j % 2 ? 0 : 4) : (gAsyncReply || gSplitReply) ? 2 * ((j + k) % 3) : (2 * j + 3 * k + 1) % 5)
+            switch (gSelfTestRace ? (j % 2 ? 0 : 4) : gFlushReply ? ((j + k) % 2 ? 4 : 0) : (gAsyncReply || gSplitReply) ? 2 * ((j + k) % 3) : (2 * j + 3 * k + 1) % 5)
             {
             case 0:
                 s.push_back({ "GET", "/g/" + tag, "" });
@@ -532,8 +550,9 @@ static void run_case(uint64_t idx, vr::Ctx& ctx)
     gGatedStart   = c.gatedStart;
     gAsyncReply   = c.asyncReply;
     gSplitReply   = c.splitReply;
+    gFlushReply   = c.flushReply;
     build_scripts();
-    std::string label = std::string(c.splitReply ? "[answer in two raw writes: loop thread, then a thread of the handler; connection blocks after one write] " : "") + std::string(c.asyncReply ? "[handlers answer from threads of their own] " : "") + std::string(c.gatedStart ? "[start-up: threads begin when scheduled] " : "") + std::string(c.fine ? "[threads also yield before every lock] " : "") + std::string(c.slowAcceptor ? "[an acceptor in the middle of a hand-over runs last] " : "") + (c.acceptFaults ? "[first " + std::to_string(c.acceptFaults) + " accepts fail with EMFILE] " : std::string()) + "w=" + std::to_string(W) + " c=" + std::to_string(C) + " r=" + std::to_string(R) + " D<=" + std::to_string(D) + (c.shutdowns ? " +shutdown-at-every-prefix" : "");
+    std::string label = std::string(c.splitReply ? "[answer in two raw writes: loop thread, then a thread of the handler; connection blocks after one write] " : "") + std::string(c.asyncReply ? "[handlers answer from threads of their own] " : "") + std::string(c.flushReply ? "[PUT answered by a streamed, flushed response on the loop thread, the others by threads of the handler; threads also yield before every eventfd read] " : "") + std::string(c.gatedStart ? "[start-up: threads begin when scheduled] " : "") + std::string(c.fine ? "[threads also yield before every lock] " : "") + std::string(c.slowAcceptor ? "[an acceptor in the middle of a hand-over runs last] " : "") + (c.acceptFaults ? "[first " + std::to_string(c.acceptFaults) + " accepts fail with EMFILE] " : std::string()) + "w=" + std::to_string(W) + " c=" + std::to_string(C) + " r=" + std::to_string(R) + " D<=" + std::to_string(D) + (c.shutdowns ? " +shutdown-at-every-prefix" : "");
     ctx.note(label);
     uint64_t steps = 0, execs = 0, shutdownExecs = 0;
     std::vector<std::vector<uint8_t>> stack;
@@ -624,6 +643,10 @@ int main(int argc, char** argv)
     // worker already serves that connection; one deviation lets it finish at any earlier point
     gCases.push_back({ 1, 1, 1, 1, false, true, 0, false, false, false, true });
     gCases.push_back({ 1, 2, 1, 1, false, true, 0, false, false, false, true });
+    // a handler flushes a streamed response on the loop thread (which drains the worker's mailbox there and then) while
+    // another connection's answer arrives through that mailbox from a thread of its handler
+    gCases.push_back({ 1, 2, 1, 1, false, true, 0, false, false, false, false, true });
+    gCases.push_back({ 1, 2, 2, 1, false, true, 0, false, false, false, false, true });
     gCases.push_back({ 2, 2, 2, 0, true });
     gCases.push_back({ 3, 3, 1, 0, true });
     if (thorough)
